@@ -209,6 +209,7 @@ func runTBFCase(c tcase, r *res.Result) (string, string) {
 	type iter struct {
 		a      time.Time // stamp before hand-in (<= the filter's clock read of this iteration)
 		u      time.Time // first sink stamp of this iteration
+		l      time.Time // last sink stamp of this iteration
 		bytes  int
 		nfwd   int
 		r, b   int
@@ -255,6 +256,7 @@ func runTBFCase(c tcase, r *res.Result) (string, string) {
 		it.fwdIdx = [2]int{lo, hi}
 		if hi > lo {
 			it.u = got[lo].at
+			it.l = got[hi-1].at
 		}
 		mu.Unlock()
 		its = append(its, it)
@@ -352,6 +354,36 @@ func runTBFCase(c tcase, r *res.Result) (string, string) {
 					key = "tbf:rate-exceeded-after-set"
 				}
 				return key, fmt.Sprintf("iterations %d..%d forwarded %d bytes in %.3f ms; burst %d + rate %d bit/s allows %.0f (excess %.0f)", m1+1, m2, sum, dt*1000, bmax, rmax, allowed, float64(sum)-allowed)
+			}
+		}
+	}
+	// second family of windows: from just before the hand-in of iteration m1 (a conforming bucket holds at most the
+	// burst at any instant) to the last forward of iteration m2, INCLUDING what iteration m1 itself forwards
+	for m1 := 0; m1 < nReal; m1++ {
+		sum := 0
+		rmax, bmax := its[m1].r, its[m1].b
+		if m1 > 0 && its[m1-1].b > bmax {
+			bmax = its[m1-1].b // a burst lowered since the previous arrival is clamped only at this arrival
+		}
+		for m2 := m1; m2 < nReal; m2++ {
+			sum += its[m2].bytes
+			if its[m2].r > rmax {
+				rmax = its[m2].r
+			}
+			if its[m2].b > bmax {
+				bmax = its[m2].b
+			}
+			if its[m2].nfwd == 0 {
+				continue
+			}
+			dt := its[m2].l.Sub(its[m1].a).Seconds()
+			allowed := float64(bmax) + float64(rmax)/8*dt + eps
+			r.Count("windows_checked", 1)
+			if sl := allowed - float64(sum); sl < tightest {
+				tightest = sl
+			}
+			if float64(sum) > allowed {
+				return "tbf:rate-exceeded-closed-window", fmt.Sprintf("iterations %d..%d (their own forwards included) forwarded %d bytes in %.3f ms; burst %d + rate %d bit/s allows %.0f (excess %.0f)", m1, m2, sum, dt*1000, bmax, rmax, allowed, float64(sum)-allowed)
 			}
 		}
 	}
